@@ -27,13 +27,18 @@ RULE = ("maps / map sets of all five games and the base classes (0-3 maps, every
         "a history on the same object: m.stack() / an earlier rate, then list-property edits (`m.hits.offset += d`, `m.bpms.bpm = ...`) or "
         "replacement by a list with as many rows; the chart is snapshotted right before the final rate), rate r > 0 from the exact stream (p/2^k with all times "
         "multiples of p: every double operation exact, equality required) or arbitrary positive doubles (2^-40 tolerance); "
-        "claims scale / one / comp / writeread; non-trivial = r != 1 and at least one non-empty list with a time in it")
+        "claims scale / one / comp / writeread; writeread (osu, StepMania, Quaver, BMS; also half of the search stream) in two modes: grid = chart "
+        "and rate arranged so that the rated chart is on the format's grid, free = only the un-rated chart is on the grid and the rate is any of "
+        "3, 3/2, 3/4, 11/10, 1/3, 2/3, 9/10, 147/160, n/100 ... so that the rated offsets, header times, sample windows, preview points, tempos "
+        "and lengths are non-terminating / sub-millisecond values; non-trivial = r != 1 and at least one non-empty list with a time in it")
 ASSUMPTIONS = [
     "row labels and dtypes are not compared (stacking renumbers labels and floats int columns; the property does not name them)",
     "writeread is checked on the implementation side only: read(write(rate r c)) against the Lean specification "
     "scaleSet r applied to read(write(c)); the writers/readers themselves are the subject of C01/C03/C05/C06",
-    "writeread charts are generated on each format's grid (integer milliseconds for osu, beats on the 1/48 grid for "
-    "StepMania and BMS) so that the format's own quantisation does not enter",
+    "writeread: the UN-rated chart is generated on each format's grid (integer milliseconds for osu / Quaver, beats on the 1/48 grid "
+    "for StepMania and BMS); the rated chart is on the grid in `grid` mode and off it in `free` mode, where a time the format stores in "
+    "whole ms (osu / Quaver: `int(...)` in the writers, C01 / C06) may come back as a whole number < 1 ms away and nothing else may move",
+    "BMS rates whose rated tempo is not a three-decimal number are the open finding D06 (C05), reported as KNOWN-FINDING",
 ]
 TRUSTED_EXTRA = ["copy.deepcopy (modelled as purity of the model; aliasing is observed: before/after snapshot, np.shares_memory)"]
 
@@ -395,6 +400,8 @@ def gen_writeread_free(rng, game):
         # beat lengths below, while the rated times leave the millisecond grid
         n = rng.choice([110, 90, 105, 75, 150, 300, 70, 120, 220, 33, 95, 125, 260, 99, 101, rng.randint(25, 300)])
         r = Fr(n, 100)
+        if rng.random() < 0.25:
+            r = Fr(*rng.choice(FREE_RATES))         # any rate: where the rated tempo leaves the three decimals it is D06
     elif rng.random() < 0.75:
         r = Fr(*rng.choice(FREE_RATES))
     else:
@@ -508,6 +515,18 @@ def corpus():
     c.append(dict(claim="writeread", game="osu", r=R(Fr(3, 2)), keys=4, t0=144, bpms=[dict(beat=0, bl=288), dict(beat=8, bl=576)],
                   hits=[dict(beat=R(Fr(1, 48)), col=0), dict(beat=R(9), col=3)], holds=[dict(beat=R(2), len=R(Fr(3, 4)), col=1)],
                   preview=1440, samples=[dict(t=288, vol=40)], svs=[dict(t=144, m=0.5)]))
+    # BMS: 156.25 bpm at rate 5/4 stays on `#BPMxx`'s three decimals (195.3125 would not: see the witness of D06) ...
+    c.append(dict(claim="writeread", game="bms", r=R(Fr(2, 5)), keys=7, t0=0, bpms=[dict(beat=0, bl=384)],
+                  hits=[dict(beat=R(8), col=0), dict(beat=R(Fr(33, 2)), col=3)], holds=[], ))
+    # C13-H class: header times / sample window that are whole ms before and not after the rate change
+    c.append(dict(claim="writeread", mode="free", game="sm", r=R(3), keys=4, t0=1000, bpms=[dict(beat=0, bl=500)],
+                  hits=[dict(beat=R(0), col=0), dict(beat=R(Fr(5, 2)), col=2)], holds=[dict(beat=R(4), len=R(2), col=1)],
+                  sample_start=10000, sample_length=5000))
+    c.append(dict(claim="writeread", mode="free", game="osu", r=R(Fr(11, 10)), keys=4, t0=1000, bpms=[dict(beat=0, bl=480)],
+                  hits=[dict(beat=R(Fr(1, 48)), col=0), dict(beat=R(9), col=3)], holds=[dict(beat=R(2), len=R(Fr(3, 4)), col=1)],
+                  preview=10000, samples=[dict(t=1000, vol=40), dict(t=1001, vol=20)], svs=[dict(t=1234, m=0.5)]))
+    c.append(dict(claim="writeread", mode="free", game="qua", r=R(Fr(1, 3)), keys=7, t0=-700, bpms=[dict(beat=0, bl=336), dict(beat=4, bl=480)],
+                  hits=[dict(beat=R(Fr(7, 48)), col=6)], holds=[dict(beat=R(1), len=R(Fr(5, 4)), col=2)], svs=[dict(t=777, m=2.0)]))
     return c
 
 
@@ -535,8 +554,6 @@ def valid(case):
                     if any(b["bl"] < 48 for b in case["bpms"]):
                         return False
                 elif any(b["bl"] % 48 for b in case["bpms"]):
-                    return False
-                if case["game"] == "bms" and 100 % q:
                     return False
             elif any(b["bl"] % (48 * p) for b in case["bpms"]) or case["t0"] % (48 * p):
                 return False
@@ -1322,6 +1339,16 @@ def wr_quantised_ok(game, eps, want, got):
     return True
 
 
+def d06_predicate(case):
+    """known finding D06 (BMS writing, open): `#BPMxx` carries three decimals.  Reached through `rate` exactly when some
+    rated tempo 60000/bl * r is not a three-decimal number (Lean: `hdec_rate_iff`, `bms_rate_hdec_necessary`): the written
+    tempo is rounded and the file drifts away from the rated chart"""
+    if case["game"] != "bms":
+        return False
+    r = F(case["r"])
+    return any((Fr(60000, b["bl"]) * r * 1000).denominator != 1 for b in case["bpms"])
+
+
 def run_writeread(case, drv):
     import warnings
     game = case["game"]
@@ -1393,6 +1420,11 @@ def run_writeread(case, drv):
             kf = "D05"          # BMS long-note tails are paired in file order: not caused by the rate change
         else:
             ok = bool(sp_mem["holds"])   # no verdict on the file level: the format does not carry this chart
+    if not ok and kf is None and sp_mem["holds"] and d06_predicate(case):
+        kf = "D06"              # the rated tempo does not fit `#BPMxx`'s three decimals: C05's open finding, reached through rate
+        dom = False
+    if d06_predicate(case):
+        tags.append("bpm-off-3-decimals")
     if not ok:
         detail = dict(r=str(r), base=c0, rated_in_memory=mem, read_back=got, base_again=c0_again,
                       want=drv.call("c13.scale_set", game=game, kind=kind, r=R(r), set=c0)["ok"])
